@@ -2,7 +2,7 @@
 import glob
 import itertools
 import os
-from .. import core, gen
+from .. import core, gen, designs
 from . import vcdfam, c11
 
 PID = "C12"
@@ -14,11 +14,15 @@ RULE = ("(1) one abstract value history per variable is delivered through the th
         "{binary, nine-state}, random to width 130. (2) every corpus waveform that exists in two formats (36 VCD/FST pairs made "
         "by vcd2fst, the GHDL GHW/FST pair) is loaded from both files: same scope/variable tree (names, nesting, order, widths), "
         "same time table scaled by the timescale, same value at every time for every bit-vector and real variable. "
-        "Non-trivial: a history with >= 2 kinds or a pair with >= 2 variables; distinct histories / pairs.")
+        "(3) random designs of the common subset (nested scopes, scalars and [n-1:0] vectors of widths 2..65 over all nine states, "
+        "reals incl. +-0 and infinities, 32-bit integers, histories with redundant changes; scenarios: several vectors written "
+        "in the same step, 4/2/9-state kind orders for every width residue, a vector idle for more than 16384 steps) are "
+        "written as one VCD, one FST and one GHW file by vlib/filegen.py; the three loaded listings must all equal the listing "
+        "computed from the design. Non-trivial: a history with >= 2 kinds or a pair with >= 2 variables; distinct histories / pairs / designs.")
 ASSUMPTIONS = ["corpus twins were produced by third-party converters; three documented conversion artefacts are excluded "
                "(parameters without value in picorv32.vcd.fst, the scope named `$end` in verilator_empty_scope.vcd.fst, "
                "the additional `standard` package of the GHW file)"]
-TRUSTED_BASE = ["Python comparison of the format independent listing (harness command wobs)"]
+TRUSTED_BASE = ["Python comparison of the format independent listing (harness command wobs)", "Python VCD/FST/GHW file writers and expected listing (vlib/filegen.py, vlib/designs.py)"]
 
 STD = c11.STD
 
@@ -149,6 +153,8 @@ def three_path_cases(rng, width, kinds, nvals=None):
 
 
 def run(res, rng, tier, model_ok, replay=None):
+    if replay and designs.replay_filecase(res, replay, "c12f"):
+        return
     if replay:
         line = replay.get("case") or replay["broken_correspondence"]["case"]
         vcdfam.run_both(res, [{"line": line}], "c12", model_ok)
@@ -198,6 +204,8 @@ def run(res, rng, tier, model_ok, replay=None):
         else:
             res.nontrivial.add(a)
     res.samples = [cases[0]["line"][:200], cases[1]["line"][:200], cases[2]["line"][:200], "wobs " + pairs[0][0]]
+    # (3) one design written as a VCD, an FST and a GHW file: all three listings must equal the listing computed from the design
+    designs.run_file_cases(res, designs.tri_cases(rng, tier), "c12f", timeout=1500)
 
 
 def check_known(entry):
